@@ -58,6 +58,7 @@ def dispatch (prop : String) (line : String) : Verdict :=
     | some "sockbig" => SockE.runBig prop f obsS
     | some "sockstrace" => SockE.runStrace prop f obsS
     | some "sockflushrace" => SockE.runFlushRace prop f obsS
+    | some "sockctor" => SockE.runCtor prop f obsS
     | some "hdl" => FmtE.runHdl prop f obsS
     | some "cfl" => FmtE.runCfl prop f obsS
     | some "sock" => SockE.runSock prop f obsS
